@@ -740,7 +740,50 @@ def r8_deferred_sql_same_scope(ctx):
                     'creates them', key='deferred-sql-second-scope')
 
 
+def r5b_new_transaction_flag_provenance(ctx):
+    """run_sql() commits the executor's open transaction for a batch whose
+    third element (explicit "needs a new transaction") is true.  That flag
+    may derive only from the new_transaction mark of the prepared statements
+    (NewTransactionSQL); mixing in anything else - e.g. `not
+    last_use_transaction`, which is also true for the first batch of every
+    call - re-introduces the commit between two run_sql() calls."""
+    ctx.rule('R-C07.5')
+    p = ctx.program
+    f = p.func(SQL, 'SQLExecutor._prepare_transaction_batches')
+    g = ctx.cfg(f)
+    from ..flow import ReachingDefs
+    rd = ReachingDefs(g, f.params)
+    n_y = 0
+    for n in g.nodes:
+        for y in n.walk():
+            if not (isinstance(y, ast.Yield) and isinstance(y.value, ast.Tuple)
+                    and len(y.value.elts) >= 3):
+                continue
+            n_y += 1
+            flag = y.value.elts[2]
+            names = set()
+            for _on, oe in rd.origins(n, flag):
+                names |= {x.id for x in ast.walk(oe) if isinstance(x, ast.Name)
+                          and not x.id.startswith('<param')}
+            extra = sorted(x for x in names
+                           if 'new_transaction' not in x and
+                           x not in ('False', 'True') and
+                           x not in f.params)
+            if extra:
+                ctx.finding(f, y, 'the "explicitly needs a new transaction" '
+                            'flag of a batch also depends on %s: run_sql() '
+                            'then commits the open transaction for batches '
+                            'that never asked for it' % ', '.join(extra),
+                            key='new-transaction-flag-depends-on:%s' %
+                            ','.join(extra))
+            else:
+                ctx.ok(f, 'the new-transaction flag of a batch derives only '
+                       'from the statements\' own mark', y)
+    ctx.counts['R-C07.5 batches yielded with a new-transaction flag'] = n_y
+
+
 def run(ctx):
+    r5b_new_transaction_flag_provenance(ctx)
     r8_deferred_sql_same_scope(ctx)
     r7_global_registration_released(ctx)
     r6_no_swallow_on_execution_path(ctx)
